@@ -1,6 +1,7 @@
 (** C15 -- fallible operations fail by value, not by panic or hang.
     Theorem-only file (written by tools/c15_mkprops.py): each theorem is closed by [exact] of a lemma of
-    Proofs/C15.v, Proofs/C15Owners.v, Proofs/C15Wide.v, Proofs/C15Text.v or Proofs/C15Strftime.v and followed by
+    Proofs/C15.v, Proofs/C15Owners.v, Proofs/C15Wide.v, Proofs/C15Text.v, Proofs/C15Strftime.v, Proofs/C15Deep.v (with C15Parse.v,
+    C15SfItems.v, C15Utf8.v) and followed by
     [Print Assumptions].
 
     C15 is cross-cutting: its model is the union of all properties' models (Model/C15.v) and its
@@ -20,8 +21,9 @@
     Which inventory entries (gen/C15_inventory.json, printed in the evidence) have such a theorem and
     which are covered by correspondence + judge only is listed at the end of this file. *)
 From Coq Require Import ZArith List Bool String.
-From V Require Import Base.Int Base.IO Spec.Gregorian Model.Strftime Proofs.C15 Proofs.C15Owners Proofs.C15Strftime Proofs.C15Wide Proofs.C15Text.
-From V Require Model.Date Model.Time Model.DateTime Model.TimeDelta Model.DateExtra Model.Parsed Model.Parse Model.Rfc3339 Model.Show Model.Round Model.C02 Model.C15 Model.C19 Gen.Strftime.
+From V Require Import Base.Int Base.IO Spec.Gregorian Model.Strftime Proofs.C15 Proofs.C15Owners Proofs.C15Strftime Proofs.C15Wide Proofs.C15Text Proofs.C15Utf8 Proofs.C15SfItems Proofs.C15Deep Proofs.C15Format Proofs.C15Errors Proofs.C15Serde.
+From V Require Model.Date Model.Time Model.DateTime Model.TimeDelta Model.DateExtra Model.Parsed Model.Parse Model.Rfc3339 Model.Show Model.Round Model.C02 Model.C15 Model.C19 Gen.Strftime
+               Base.Utf8 Model.Scan Model.FromStr Model.Rfc2822 Model.Format Model.Serde Model.ScanNames Proofs.C12 Proofs.C13Total Proofs.C13Time Proofs.C14 Proofs.C19 Proofs.C20Ts.
 Import ListNotations.
 Open Scope Z_scope.
 
@@ -335,6 +337,20 @@ Theorem C15_dtz_months_partial : forall (add : bool) a m,
   returns step /\ forall z, step = Val (Some z) -> Proofs.C04.dtz_ok z.
 Proof. exact dtz_months_partial. Qed.
 Print Assumptions C15_dtz_months_partial.
+(* MappedLocalTime::single / earliest / latest are pattern matches in the model (no trapping step); what they return *)
+Theorem C15_mlt_selectors : forall A (m : Model.DateTime.mlt A), 
+  (forall x, Model.DateTime.mlt_single m = Some x <-> m = Model.DateTime.MSingle x) /\
+  (Model.DateTime.mlt_earliest m = None <-> m = Model.DateTime.MNone) /\
+  (Model.DateTime.mlt_latest m = None <-> m = Model.DateTime.MNone) /\
+  (forall x, Model.DateTime.mlt_single m = Some x -> Model.DateTime.mlt_earliest m = Some x /\ Model.DateTime.mlt_latest m = Some x) /\
+  (forall x y, m = Model.DateTime.MAmbiguous x y -> Model.DateTime.mlt_earliest m = Some x /\ Model.DateTime.mlt_latest m = Some y).
+Proof. exact mlt_selectors. Qed.
+Print Assumptions C15_mlt_selectors.
+(* TimeZone::offset_from_local_date / offset_from_local_datetime of FixedOffset and Utc (op c15.offlocal): the constant answer Single(self), twice *)
+Theorem C15_offset_from_local_total : forall off, 
+  Model.C15.offset_from_local off = VTup [VTup [VInt off]; VTup [VInt off]].
+Proof. exact offset_from_local_total. Qed.
+Print Assumptions C15_offset_from_local_total.
 
 (** ** Month stepping, date-field replacement, week helpers (C08): every date, every u32 / i32 argument *)
 Theorem C15_date_months_total : forall d n, 
@@ -407,12 +423,31 @@ Theorem C15_to_naive_time_total : forall p,
   returns (Model.Parsed.to_naive_time p).
 Proof. exact to_naive_time_total. Qed.
 Print Assumptions C15_to_naive_time_total.
-(* every i32 offset; includes the minimum timestamp with second 60 (dd0e5ce); to_datetime / to_datetime_with_timezone go through it (correspondence + judge for their last step) *)
+(* every i32 offset; includes the minimum timestamp with second 60 (dd0e5ce) *)
 Theorem C15_to_naive_datetime_with_offset_total : forall p off, 
   Proofs.C14.typed p -> in_i32 off = true ->
   returns (Model.Parsed.to_naive_datetime_with_offset p off).
 Proof. exact to_naive_datetime_with_offset_total. Qed.
 Print Assumptions C15_to_naive_datetime_with_offset_total.
+(* Parsed::to_datetime on every typed field state, the last step (offset range check, from_local_datetime) included (C14_to_datetime_never_panics); a returned date-time is well formed *)
+Theorem C15_to_datetime_total : forall p, 
+  Proofs.C14.typed p ->
+  returns (Model.Parsed.to_datetime p) /\ forall z, Model.Parsed.to_datetime p = Val (Model.Parsed.Ok z) -> Proofs.C04.dtz_ok z.
+Proof. exact to_datetime_total. Qed.
+Print Assumptions C15_to_datetime_total.
+(* Parsed::to_datetime_with_timezone for every FixedOffset / Utc zone (C14_to_datetime_with_timezone_never_panics); the result carries the zone's offset *)
+Theorem C15_to_datetime_with_timezone_total : forall p tz, 
+  Proofs.C14.typed p -> Proofs.C04.off_ok tz ->
+  returns (Model.Parsed.to_datetime_with_timezone p tz) /\
+  forall z, Model.Parsed.to_datetime_with_timezone p tz = Val (Model.Parsed.Ok z) -> Proofs.C04.dtz_ok z /\ Model.DateTime.dz_off z = tz.
+Proof. exact to_datetime_with_timezone_total. Qed.
+Print Assumptions C15_to_datetime_with_timezone_total.
+(* the 21 getters (year .. offset) are plain projections in the model (no trapping step): on every typed state -- every state the setters (C14_setters_keep_typed) and the readers (C15_parse_items_total) produce -- a returned value is a value of the getter's Rust type *)
+Theorem C15_parsed_getters_valid : forall p f, 
+  Proofs.C14.typed p ->
+  match Model.Parsed.pget f p with Some v => Proofs.C14.ftype f v | None => True end.
+Proof. exact parsed_getters_valid. Qed.
+Print Assumptions C15_parsed_getters_valid.
 
 (** ** Weekday / Month conversions and FromStr (C19) *)
 (* all thirteen FromPrimitive / TryFrom conversions are plain functions in the model: a returned value is a Weekday / Month *)
@@ -451,18 +486,128 @@ Theorem C15_ndt_round_total_partial : forall a d,
 Proof. exact ndt_round_total_partial. Qed.
 Print Assumptions C15_ndt_round_total_partial.
 
-(** ** Parsers *)
+(** ** Parsers.  [str_ok s]: s is well-formed UTF-8 (Base/Utf8.v; the same strings as Model/Strftime.v's predicate: C15_utf8_predicates_agree) of a length a Rust string can have (at most u64::MAX bytes; the RFC 2822 reader and the format-string iterator do usize arithmetic on lengths).  The premise SF_ERROR_CONSUMES = true is the translator's reading of the repaired error() of src/format/strftime.rs (d664290), as in the StrftimeItems theorems below *)
 (* every well-formed UTF-8 string (C10) *)
 Theorem C15_parse_from_rfc3339_total : forall s, 
   Base.Utf8.utf8_valid s = true -> returns (Model.Rfc3339.parse_from_rfc3339 s).
 Proof. exact parse_from_rfc3339_total. Qed.
 Print Assumptions C15_parse_from_rfc3339_total.
-(* format::parse / parse_and_remainder with an explicit item list (C13).  PARTIAL: item lists without Fixed::RFC2822 (C11 owns that reader: C11_comment_total, C11_zone_scanner_total, C11_no_panic_on_grammar_partial; otherwise correspondence + judge) *)
+(* DateTime::parse_from_rfc2822: EVERY string (C11_parse_never_panics + C14_to_datetime_never_panics); a returned date-time is well formed *)
+Theorem C15_parse_from_rfc2822_total : forall s, 
+  str_ok s ->
+  returns (Model.Rfc2822.parse_from_rfc2822 s) /\ forall z, Model.Rfc2822.parse_from_rfc2822 s = Val (POk z) -> Proofs.C04.dtz_ok z.
+Proof. exact parse_from_rfc2822_total. Qed.
+Print Assumptions C15_parse_from_rfc2822_total.
+(* format::parse / parse_and_remainder over EVERY item list whose literals are strings, the Fixed::RFC2822 item included (C13_parse_never_panics), every input: never a trap; an accepted input leaves a typed field state (Proofs/C15Parse.v) and a well-formed remainder.  Supersedes C15_parse_items_total_partial *)
+Theorem C15_parse_items_total : forall items p s, 
+  Proofs.C14.typed p -> forallb Proofs.C13Total.item_wf items = true ->
+  Base.Utf8.utf8_valid s = true -> Base.Utf8.blen s <= u64_max ->
+  (returns (Model.Parse.parse p s items) /\ forall q, Model.Parse.parse p s items = Val (POk q) -> Proofs.C14.typed q) /\
+  (returns (Model.Parse.parse_and_remainder p s items) /\
+   forall q r, Model.Parse.parse_and_remainder p s items = Val (POk (q, r)) -> Proofs.C14.typed q /\ Base.Utf8.utf8_valid r = true).
+Proof. exact parse_items_full. Qed.
+Print Assumptions C15_parse_items_total.
+(* the older form (kept under its name; superseded by C15_parse_items_total): item lists without Fixed::RFC2822 *)
 Theorem C15_parse_items_total_partial : forall items p s, 
   forallb Proofs.C13Safe.item_ok items = true -> Base.Utf8.utf8_valid s = true ->
   returns (Model.Parse.parse p s items) /\ returns (Model.Parse.parse_and_remainder p s items).
 Proof. exact parse_items_total. Qed.
 Print Assumptions C15_parse_items_total_partial.
+(* the two executable statements of UTF-8 well-formedness in the models accept the same strings *)
+Theorem C15_utf8_predicates_agree : forall s, 
+  Model.Strftime.utf8_valid s = Base.Utf8.utf8_valid s.
+Proof. exact utf8_valid_eq. Qed.
+Print Assumptions C15_utf8_predicates_agree.
+(* every item the strict format-string iterator yields is well formed: a Literal carries a well-formed string ([st_ok]: strict mode, well-formed remainder of at most u64::MAX bytes, well-formed queued items; [st_ok_new]: StrftimeItems::new(fmt) is such a state) *)
+Theorem C15_strftime_items_wellformed : 
+  forall items st, st_ok st -> Proofs.C13Time.yields st items -> forallb Proofs.C13Total.item_wf items = true.
+Proof. exact yields_wf. Qed.
+Print Assumptions C15_strftime_items_wellformed.
+(* NaiveDate::parse_from_str(s, fmt): EVERY format string, EVERY input -- iterator, lazily driven reader (C13_parse_sf_loop_is_parse_items), to_naive_date; a returned date is valid *)
+Theorem C15_date_parse_from_str_total : forall s fmt, 
+  str_ok s -> str_ok fmt -> Gen.Strftime.SF_ERROR_CONSUMES = true ->
+  returns (Model.Parse.date_parse_from_str s fmt) /\ forall d, Model.Parse.date_parse_from_str s fmt = Val (POk d) -> date_valid d.
+Proof. exact date_parse_from_str_total. Qed.
+Print Assumptions C15_date_parse_from_str_total.
+(* NaiveTime::parse_from_str *)
+Theorem C15_time_parse_from_str_total : forall s fmt, 
+  str_ok s -> str_ok fmt -> Gen.Strftime.SF_ERROR_CONSUMES = true ->
+  returns (Model.Parse.time_parse_from_str s fmt) /\ forall t, Model.Parse.time_parse_from_str s fmt = Val (POk t) -> time_valid t.
+Proof. exact time_parse_from_str_total. Qed.
+Print Assumptions C15_time_parse_from_str_total.
+(* NaiveDateTime::parse_from_str *)
+Theorem C15_ndt_parse_from_str_total : forall s fmt, 
+  str_ok s -> str_ok fmt -> Gen.Strftime.SF_ERROR_CONSUMES = true ->
+  returns (Model.Parse.ndt_parse_from_str s fmt) /\ forall a, Model.Parse.ndt_parse_from_str s fmt = Val (POk a) -> Proofs.C04.ndt_ok a.
+Proof. exact ndt_parse_from_str_total. Qed.
+Print Assumptions C15_ndt_parse_from_str_total.
+(* DateTime::<FixedOffset>::parse_from_str *)
+Theorem C15_dt_parse_from_str_total : forall s fmt, 
+  str_ok s -> str_ok fmt -> Gen.Strftime.SF_ERROR_CONSUMES = true ->
+  returns (Model.Parse.dt_parse_from_str s fmt) /\ forall z, Model.Parse.dt_parse_from_str s fmt = Val (POk z) -> Proofs.C04.dtz_ok z.
+Proof. exact dt_parse_from_str_total. Qed.
+Print Assumptions C15_dt_parse_from_str_total.
+(* T::parse_and_remainder(s, fmt): the value is valid and the remainder handed back is a string again *)
+Theorem C15_date_parse_and_remainder_total : forall s fmt, 
+  str_ok s -> str_ok fmt -> Gen.Strftime.SF_ERROR_CONSUMES = true ->
+  returns (Model.Parse.date_parse_and_remainder s fmt) /\
+  forall d r, Model.Parse.date_parse_and_remainder s fmt = Val (POk (d, r)) -> date_valid d /\ Base.Utf8.utf8_valid r = true.
+Proof. exact date_parse_and_remainder_total. Qed.
+Print Assumptions C15_date_parse_and_remainder_total.
+Theorem C15_time_parse_and_remainder_total : forall s fmt, 
+  str_ok s -> str_ok fmt -> Gen.Strftime.SF_ERROR_CONSUMES = true ->
+  returns (Model.Parse.time_parse_and_remainder s fmt) /\
+  forall t r, Model.Parse.time_parse_and_remainder s fmt = Val (POk (t, r)) -> time_valid t /\ Base.Utf8.utf8_valid r = true.
+Proof. exact time_parse_and_remainder_total. Qed.
+Print Assumptions C15_time_parse_and_remainder_total.
+Theorem C15_ndt_parse_and_remainder_total : forall s fmt, 
+  str_ok s -> str_ok fmt -> Gen.Strftime.SF_ERROR_CONSUMES = true ->
+  returns (Model.Parse.ndt_parse_and_remainder s fmt) /\
+  forall a r, Model.Parse.ndt_parse_and_remainder s fmt = Val (POk (a, r)) -> Proofs.C04.ndt_ok a /\ Base.Utf8.utf8_valid r = true.
+Proof. exact ndt_parse_and_remainder_total. Qed.
+Print Assumptions C15_ndt_parse_and_remainder_total.
+Theorem C15_dt_parse_and_remainder_total : forall s fmt, 
+  str_ok s -> str_ok fmt -> Gen.Strftime.SF_ERROR_CONSUMES = true ->
+  returns (Model.Parse.dt_parse_and_remainder s fmt) /\
+  forall z r, Model.Parse.dt_parse_and_remainder s fmt = Val (POk (z, r)) -> Proofs.C04.dtz_ok z /\ Base.Utf8.utf8_valid r = true.
+Proof. exact dt_parse_and_remainder_total. Qed.
+Print Assumptions C15_dt_parse_and_remainder_total.
+(* the FromStr impls built on the item reader with the fixed item lists of Gen/TextForms.v (Model/FromStr.v): EVERY input *)
+Theorem C15_naive_date_from_str_total : forall s, 
+  str_ok s ->
+  returns (Model.FromStr.naive_date_from_str s) /\ forall d, Model.FromStr.naive_date_from_str s = Val (POk d) -> date_valid d.
+Proof. exact naive_date_from_str_total. Qed.
+Print Assumptions C15_naive_date_from_str_total.
+(* three reader calls (the second may fail and is then ignored) and to_naive_time *)
+Theorem C15_naive_time_from_str_total : forall s, 
+  str_ok s ->
+  returns (Model.FromStr.naive_time_from_str s) /\ forall t, Model.FromStr.naive_time_from_str s = Val (POk t) -> time_valid t.
+Proof. exact naive_time_from_str_total. Qed.
+Print Assumptions C15_naive_time_from_str_total.
+Theorem C15_naive_datetime_from_str_total : forall s, 
+  str_ok s ->
+  returns (Model.FromStr.naive_datetime_from_str s) /\ forall a, Model.FromStr.naive_datetime_from_str s = Val (POk a) -> Proofs.C04.ndt_ok a.
+Proof. exact naive_datetime_from_str_total. Qed.
+Print Assumptions C15_naive_datetime_from_str_total.
+(* the relaxed RFC 3339 reader (C13_rfc3339_relaxed_never_panics), trailing white space, to_datetime *)
+Theorem C15_datetime_fixed_from_str_total : forall s, 
+  str_ok s ->
+  returns (Model.FromStr.datetime_fixed_from_str s) /\ forall z, Model.FromStr.datetime_fixed_from_str s = Val (POk z) -> Proofs.C04.dtz_ok z.
+Proof. exact datetime_fixed_from_str_total. Qed.
+Print Assumptions C15_datetime_fixed_from_str_total.
+(* the same, then with_timezone(&Utc) *)
+Theorem C15_datetime_utc_from_str_total : forall s, 
+  str_ok s ->
+  returns (Model.FromStr.datetime_utc_from_str s) /\
+  forall z, Model.FromStr.datetime_utc_from_str s = Val (POk z) -> Proofs.C04.dtz_ok z /\ Model.DateTime.dz_off z = 0.
+Proof. exact datetime_utc_from_str_total. Qed.
+Print Assumptions C15_datetime_utc_from_str_total.
+(* the offset scanner (C13_timezone_offset_never_panics), then east_opt *)
+Theorem C15_fixed_offset_from_str_total : forall s, 
+  str_ok s ->
+  returns (Model.FromStr.fixed_offset_from_str s) /\ forall off, Model.FromStr.fixed_offset_from_str s = Val (POk off) -> Proofs.C04.off_ok off.
+Proof. exact fixed_offset_from_str_total. Qed.
+Print Assumptions C15_fixed_offset_from_str_total.
 
 (** ** The RFC 3339 renderers never trap: EVERY well-formed date-time -- any year (the one-day headroom seen through an offset included: the repaired defect of to_rfc3339_opts), any offset (seconds included), leap-second fraction on any second -- and every SecondsFormat (0 Secs .. 4 AutoSi).  The writer is total (Proofs/C15Text.v on the writer lemmas of C09 / C10 / C20); what the text IS is C10's theorem on its writer domain (C10_writer_in_grammar) *)
 Theorem C15_to_rfc3339_total : forall a, 
@@ -480,6 +625,32 @@ Theorem C15_to_rfc3339_opts_total_partial : forall y o secs frac off sf uz a,
   returns (Model.Rfc3339.to_rfc3339_opts a sf uz).
 Proof. exact to_rfc3339_opts_total_partial. Qed.
 Print Assumptions C15_to_rfc3339_opts_total_partial.
+
+(** ** DelayedFormat never traps (Proofs/C15Format.v): EVERY item -- every Numeric with every Pad, every Fixed incl. the internal ones and the RFC 2822 / RFC 3339 items, literals, the Error item -- on EVERY value of the five kinds (NaiveDate, NaiveTime, NaiveDateTime, DateTime<FixedOffset> with any offset and the wall-clock day one day outside the date range, DateTime<Utc>): the text, or fmt::Error by value (an item the value has no field for; a year outside 0..=9999 under the RFC 2822 item; the Error item).  Hence write_to / Display over arbitrary item lists and over StrftimeItems (strict or lenient) of every format string.  What the text IS on the documented family: C12_format_spec_family *)
+(* one item; [Proofs.C12.args_view a sv]: the formatter arguments denote a value (C12_args_view_date .. C12_args_view_dtz_all: every value has such a view) *)
+Theorem C15_format_item_never_traps : forall a sv it, 
+  Proofs.C12.args_view a sv -> returns (Model.Format.format_item a it).
+Proof. exact format_item_never_traps. Qed.
+Print Assumptions C15_format_item_never_traps.
+(* DelayedFormat::write_to / Display over an arbitrary item list (format_with_items), the five kinds of value *)
+Theorem C15_delayed_format_items_total : forall items, 
+  (forall d, date_valid d -> returns (Model.Format.write_items (Model.Format.fa_of_date d) items [])) /\
+  (forall t, time_valid t -> returns (Model.Format.write_items (Model.Format.fa_of_time t) items [])) /\
+  (forall n, Proofs.C04.ndt_ok n -> returns (Model.Format.write_items (Model.Format.fa_of_ndt n) items [])) /\
+  (forall z, Proofs.C04.dtz_ok z -> exists a, Model.Format.fa_of_dtz z = Val a /\ returns (Model.Format.write_items a items [])) /\
+  (forall n, Proofs.C04.ndt_ok n -> exists a, Model.Format.fa_of_utc n = Val a /\ returns (Model.Format.write_items a items [])).
+Proof. exact delayed_format_items_total. Qed.
+Print Assumptions C15_delayed_format_items_total.
+(* DelayedFormat<StrftimeItems>: every format string, strict (repaired error()) or lenient (op c15.writeto, sf.fmt, sf.fmtl) *)
+Theorem C15_delayed_format_strftime_total : forall fmt lenient, 
+  Base.Utf8.utf8_valid fmt = true -> Base.Utf8.blen fmt <= u64_max -> Gen.Strftime.SF_ERROR_CONSUMES = true \/ lenient = true ->
+  (forall d, date_valid d -> returns (Model.Format.delayed_display (Model.Format.fa_of_date d) (Model.Strftime.mk_sfi fmt [] lenient))) /\
+  (forall t, time_valid t -> returns (Model.Format.delayed_display (Model.Format.fa_of_time t) (Model.Strftime.mk_sfi fmt [] lenient))) /\
+  (forall n, Proofs.C04.ndt_ok n -> returns (Model.Format.delayed_display (Model.Format.fa_of_ndt n) (Model.Strftime.mk_sfi fmt [] lenient))) /\
+  (forall z, Proofs.C04.dtz_ok z -> exists a, Model.Format.fa_of_dtz z = Val a /\ returns (Model.Format.delayed_display a (Model.Strftime.mk_sfi fmt [] lenient))) /\
+  (forall n, Proofs.C04.ndt_ok n -> exists a, Model.Format.fa_of_utc n = Val a /\ returns (Model.Format.delayed_display a (Model.Strftime.mk_sfi fmt [] lenient))).
+Proof. exact delayed_format_strftime_total. Qed.
+Print Assumptions C15_delayed_format_strftime_total.
 
 (** ** Debug / Display of values never trap (to_string() / format!("{:?}") panic on a writer error: there is none): every valid NaiveDate, NaiveTime, NaiveDateTime (leap-second fractions included), every FixedOffset (seconds included), Utc, and every well-formed DateTime<Tz> ([utc] = true: Tz = Utc) -- wall clock in the one-day headroom included.  What the text IS: C09's shape theorems (C09_shape_date ...) on their domain *)
 Theorem C15_show_date_total : forall d, 
@@ -508,6 +679,82 @@ Theorem C15_show_dtz_total : forall utc a,
   returns (Model.Show.to_text (Model.Show.dtz_debug utc [] a)) /\ returns (Model.Show.to_text (Model.Show.dtz_display utc [] a)).
 Proof. exact show_dtz_total. Qed.
 Print Assumptions C15_show_dtz_total.
+
+(** ** Display / Debug of the error types, Debug of IsoWeek and of WeekdaySet (ops c15.errtext, c15.isoweek.dbg, c15.wdset.dbg; Proofs/C15Errors.v).  The impls write a literal (read from the sources by the translator: Gen/ErrText.v) or format two integers; there is no failing step in the model, so to_string() / format!("{:?}") of these values cannot panic on a writer error.  [err_dom which variant]: the selector names a value of an error type -- which 0 ParseError (variant = ParseErrorKind 0..6), 1 / 2 OutOfRange Display / Debug, 3 / 4 ParseMonthError, 5 / 6 ParseWeekdayError, 7 RoundingError (variant 0..2), 8 OutOfRangeError *)
+(* every value of every error type has a text: a non-empty well-formed string *)
+Theorem C15_error_texts_total : forall which variant, 
+  err_dom which variant = true ->
+  exists t, Model.C15.err_text which variant = Some t /\ Base.Utf8.utf8_valid t = true /\ t <> [].
+Proof. exact error_texts_total. Qed.
+Print Assumptions C15_error_texts_total.
+(* and no other selector has one *)
+Theorem C15_error_texts_domain : forall which variant, 
+  err_dom which variant = false -> Model.C15.err_text which variant = None.
+Proof. exact error_texts_domain. Qed.
+Print Assumptions C15_error_texts_domain.
+(* format!("{:?}", date.iso_week()) for every date (the ISO week exists: C15_fact_iso_week_total) *)
+Theorem C15_isoweek_debug_total : forall d, 
+  date_valid d -> returns (Model.C15.isoweek_debug d).
+Proof. exact isoweek_debug_total. Qed.
+Print Assumptions C15_isoweek_debug_total.
+(* Debug of WeekdaySet: the prefix, exactly seven binary digits, the suffix *)
+Theorem C15_wdset_debug_total : forall bits, 
+  exists ds, Model.C15.wdset_debug bits = Gen.ErrText.ET_WDSET_PRE ++ ds ++ Gen.ErrText.ET_WDSET_POST /\
+             List.length ds = 7%nat /\ Forall (fun c => c = 48 \/ c = 49) ds.
+Proof. exact wdset_debug_total. Qed.
+Print Assumptions C15_wdset_debug_total.
+
+(** ** The serde carriers (Model/Serde.v; stream, data formats and round trips are C20's) never trap, at full strength (Proofs/C15Serde.v): the string deserializers are the FromStr impls (visit_str = value.parse()) -- every string; a visitor method an impl does not define is serde's invalid-type error, by value; [sval_ok v]: a string handed to visit_str is a string of a length a Rust string can have.  The string serializers of NaiveTime / NaiveDateTime: every value, leap-second fractions on any second included.  The sixteen timestamp helper modules ([Proofs.C20Ts.plain_mods] / [option_mods]: the module numbers of Gen/SerdeConsts.v): serialize of EVERY well-formed date-time (C20_ts_serialize_spec states the written number for non-leap values) *)
+Theorem C15_serde_de_date_total : forall v, 
+  sval_ok v ->
+  returns (Model.Serde.de_date v) /\ forall d, Model.Serde.de_date v = Val (SOk d) -> date_valid d.
+Proof. exact de_date_total. Qed.
+Print Assumptions C15_serde_de_date_total.
+Theorem C15_serde_de_time_total : forall v, 
+  sval_ok v ->
+  returns (Model.Serde.de_time v) /\ forall t, Model.Serde.de_time v = Val (SOk t) -> time_valid t.
+Proof. exact de_time_total. Qed.
+Print Assumptions C15_serde_de_time_total.
+Theorem C15_serde_de_ndt_total : forall v, 
+  sval_ok v ->
+  returns (Model.Serde.de_ndt v) /\ forall a, Model.Serde.de_ndt v = Val (SOk a) -> Proofs.C04.ndt_ok a.
+Proof. exact de_ndt_total. Qed.
+Print Assumptions C15_serde_de_ndt_total.
+Theorem C15_serde_de_dt_fixed_total : forall v, 
+  sval_ok v ->
+  returns (Model.Serde.de_dt_fixed v) /\ forall z, Model.Serde.de_dt_fixed v = Val (SOk z) -> Proofs.C04.dtz_ok z.
+Proof. exact de_dt_fixed_total. Qed.
+Print Assumptions C15_serde_de_dt_fixed_total.
+Theorem C15_serde_de_dt_utc_total : forall v, 
+  sval_ok v ->
+  returns (Model.Serde.de_dt_utc v) /\
+  forall z, Model.Serde.de_dt_utc v = Val (SOk z) -> Proofs.C04.dtz_ok z /\ Model.DateTime.dz_off z = 0.
+Proof. exact de_dt_utc_total. Qed.
+Print Assumptions C15_serde_de_dt_utc_total.
+(* Weekday / Month: the premises of C15_weekday_month_from_str_total on the string *)
+Theorem C15_serde_de_names_total : forall v, 
+  (forall s, v = Model.Serde.SStr s -> Forall Proofs.C19.byte s /\ Model.ScanNames.utf8_valid s = true) ->
+  returns (Model.Serde.de_wd v) /\ returns (Model.Serde.de_mo v).
+Proof. exact de_names_total. Qed.
+Print Assumptions C15_serde_de_names_total.
+Theorem C15_serde_ser_time_total : forall t, 
+  time_valid t -> returns (Model.Serde.ser_time t).
+Proof. exact ser_time_total. Qed.
+Print Assumptions C15_serde_ser_time_total.
+Theorem C15_serde_ser_ndt_total : forall a, 
+  Proofs.C04.ndt_ok a -> returns (Model.Serde.ser_ndt a).
+Proof. exact ser_ndt_total. Qed.
+Print Assumptions C15_serde_ser_ndt_total.
+(* timestamp() / _millis() / _micros() do not overflow anywhere in the range (C02_timestamp*_no_overflow), timestamp_nanos_opt() = None is the custom error *)
+Theorem C15_serde_ts_serialize_total : forall m a, 
+  In m Proofs.C20Ts.plain_mods -> Proofs.C04.ndt_ok a -> returns (Model.Serde.ts_serialize m a).
+Proof. exact ts_serialize_total. Qed.
+Print Assumptions C15_serde_ts_serialize_total.
+Theorem C15_serde_ts_serialize_option_total : forall m o, 
+  In m Proofs.C20Ts.option_mods -> (forall a, o = Some a -> Proofs.C04.ndt_ok a) ->
+  returns (Model.Serde.ts_serialize_option m o).
+Proof. exact ts_serialize_option_total. Qed.
+Print Assumptions C15_serde_ts_serialize_option_total.
 
 (** ** The format-string iterator NEVER TRAPS (dedicated proof, Proofs/C15Strftime.v: every slice of strftime.rs is taken at a character boundary of the well-formed input, the index arithmetic stays in usize, assert!(nextspec > 0) holds), strict or lenient, with or without the repair of error(); with C12's termination theorem: it yields a finite item list of at most 13 items per byte, and StrftimeItems::parse / parse_to_owned / count return *)
 Theorem C15_strftime_never_panics : forall s lenient fuel, 
@@ -571,6 +818,28 @@ Example C15_wide_hypotheses_inhabited :
 Proof. exact wide_hypotheses_inhabited. Qed.
 Print Assumptions C15_wide_hypotheses_inhabited.
 
+Example C15_serde_hypotheses_inhabited :
+  sval_ok (Model.Serde.SStr ex_text) /\ sval_ok Model.Serde.SUnit /\ In 6 Proofs.C20Ts.plain_mods /\ In 7 Proofs.C20Ts.option_mods /\
+  Proofs.C04.ndt_ok l_wide.
+Proof. exact serde_hypotheses_inhabited. Qed.
+Print Assumptions C15_serde_hypotheses_inhabited.
+
+Example C15_errors_hypotheses_inhabited :
+  err_dom 0 6 = true /\ err_dom 8 1 = false /\ date_valid Model.Date.D_MAX /\
+  Model.C15.wdset_debug 5 = B"WeekdaySet(0000101)".
+Proof. exact errors_hypotheses_inhabited. Qed.
+Print Assumptions C15_errors_hypotheses_inhabited.
+
+(* ... and those of the text entry points (Proofs/C15Deep.v): [ex_fmt] = "%a, %d %b %Y %T %z \u00e9", [ex_text] = "Tue, 01 Jul 2003 10:52:37 +0200 \u00e9" *)
+Example C15_deep_hypotheses_inhabited :
+  str_ok ex_fmt /\ str_ok ex_text /\ Gen.Strftime.SF_ERROR_CONSUMES = true /\
+  (exists z, Model.Parse.dt_parse_from_str ex_text ex_fmt = Val (POk z)) /\
+  Model.Parse.date_parse_from_str ex_text (bytes_of_string "%Q"%string) = Val (PErr Model.Scan.BadFormat) /\
+  Model.Parse.date_parse_from_str ex_text ex_fmt = Val (POk (Proofs.C08Sweeps.mkdate 2003 182)) /\
+  Model.FromStr.naive_time_from_str (bytes_of_string "23:59:60.5"%string) = Val (POk (Model.Time.mk_time 86399 1500000000)).
+Proof. exact deep_hypotheses_inhabited. Qed.
+Print Assumptions C15_deep_hypotheses_inhabited.
+
 (** ** Inventory of the public fallible entry points (gen/C15_inventory.json) by kind of no-panic evidence
 
    THEOREM of this file:
@@ -581,6 +850,10 @@ Print Assumptions C15_wide_hypotheses_inhabited.
        NaiveDate::checked_add_days; NaiveDate::checked_sub_days;
      C15_date_months_total
        NaiveDate::checked_add_months; NaiveDate::checked_sub_months;
+     C15_date_parse_and_remainder_total
+       NaiveDate::parse_and_remainder;
+     C15_date_parse_from_str_total
+       NaiveDate::parse_from_str;
      C15_date_signed_total
        NaiveDate::checked_add_signed; NaiveDate::checked_sub_signed;
      C15_date_with_total
@@ -588,6 +861,18 @@ Print Assumptions C15_wide_hypotheses_inhabited.
        <NaiveDate as Datelike>::with_month0; <NaiveDate as Datelike>::with_day;
        <NaiveDate as Datelike>::with_day0; <NaiveDate as Datelike>::with_ordinal;
        <NaiveDate as Datelike>::with_ordinal0;
+     C15_datetime_fixed_from_str_total
+       <DateTime<FixedOffset> as str::FromStr>::from_str;
+     C15_datetime_utc_from_str_total
+       <DateTime<Utc> as str::FromStr>::from_str;
+     C15_delayed_format_items_total
+       DelayedFormat<I>::write_to;
+     C15_delayed_format_strftime_total
+       <DelayedFormat<I> as Display>::fmt;
+     C15_dt_parse_and_remainder_total
+       DateTime<FixedOffset>::parse_and_remainder;
+     C15_dt_parse_from_str_total
+       DateTime<FixedOffset>::parse_from_str;
      C15_dtz_days_total
        DateTime<Tz>::checked_add_days; DateTime<Tz>::checked_sub_days;
      C15_dtz_months_total
@@ -605,8 +890,15 @@ Print Assumptions C15_wide_hypotheses_inhabited.
      C15_dtz_with_time_field_total
        <DateTime<Tz> as Timelike>::with_hour; <DateTime<Tz> as Timelike>::with_minute;
        <DateTime<Tz> as Timelike>::with_second; <DateTime<Tz> as Timelike>::with_nanosecond;
+     C15_error_texts_total
+       <ParseError as fmt::Display>::fmt; <OutOfRange as fmt::Display>::fmt; <OutOfRange as fmt::Debug>::fmt;
+       <ParseMonthError as fmt::Display>::fmt; <ParseMonthError as fmt::Debug>::fmt;
+       <RoundingError as fmt::Display>::fmt; <OutOfRangeError as fmt::Display>::fmt;
+       <ParseWeekdayError as fmt::Display>::fmt; <ParseWeekdayError as fmt::Debug>::fmt;
      C15_fixed_offset_ctor_total
        FixedOffset::east_opt; FixedOffset::west_opt;
+     C15_fixed_offset_from_str_total
+       <FixedOffset as FromStr>::from_str;
      C15_from_isoywd_opt_total
        NaiveDate::from_isoywd_opt;
      C15_from_local_datetime_total
@@ -625,14 +917,28 @@ Print Assumptions C15_wide_hypotheses_inhabited.
        NaiveDate::from_ymd_opt;
      C15_from_yo_opt_total
        NaiveDate::from_yo_opt;
+     C15_isoweek_debug_total
+       <IsoWeek as fmt::Debug>::fmt;
+     C15_mlt_selectors
+       MappedLocalTime<T>::single; MappedLocalTime<T>::earliest; MappedLocalTime<T>::latest;
      C15_month_num_days_total
        Month::num_days;
+     C15_naive_date_from_str_total
+       <NaiveDate as str::FromStr>::from_str;
+     C15_naive_datetime_from_str_total
+       <NaiveDateTime as str::FromStr>::from_str;
+     C15_naive_time_from_str_total
+       <NaiveTime as str::FromStr>::from_str;
      C15_ndt_days_total
        NaiveDateTime::checked_add_days; NaiveDateTime::checked_sub_days;
      C15_ndt_months_total
        NaiveDateTime::checked_add_months; NaiveDateTime::checked_sub_months;
      C15_ndt_offset_total
        NaiveDateTime::checked_add_offset; NaiveDateTime::checked_sub_offset;
+     C15_ndt_parse_and_remainder_total
+       NaiveDateTime::parse_and_remainder;
+     C15_ndt_parse_from_str_total
+       NaiveDateTime::parse_from_str;
      C15_ndt_round_total
        <NaiveDateTime as DurationRound>::duration_round; <NaiveDateTime as DurationRound>::duration_trunc;
        <NaiveDateTime as DurationRound>::duration_round_up;
@@ -641,14 +947,51 @@ Print Assumptions C15_wide_hypotheses_inhabited.
      C15_ndt_with_time_total
        <NaiveDateTime as Timelike>::with_hour; <NaiveDateTime as Timelike>::with_minute;
        <NaiveDateTime as Timelike>::with_second; <NaiveDateTime as Timelike>::with_nanosecond;
+     C15_offset_from_local_total
+       <FixedOffset as TimeZone>::offset_from_local_date; <FixedOffset as TimeZone>::offset_from_local_datetime;
+       <Utc as TimeZone>::offset_from_local_date; <Utc as TimeZone>::offset_from_local_datetime;
+     C15_parse_from_rfc2822_total
+       DateTime<FixedOffset>::parse_from_rfc2822;
      C15_parse_from_rfc3339_total
        DateTime<FixedOffset>::parse_from_rfc3339;
+     C15_parse_items_total
+       parse::parse; parse::parse_and_remainder;
+     C15_parsed_getters_valid
+       Parsed::year; Parsed::year_div_100; Parsed::year_mod_100; Parsed::isoyear; Parsed::isoyear_div_100;
+       Parsed::isoyear_mod_100; Parsed::quarter; Parsed::month; Parsed::week_from_sun; Parsed::week_from_mon;
+       Parsed::isoweek; Parsed::weekday; Parsed::ordinal; Parsed::day; Parsed::hour_div_12; Parsed::hour_mod_12;
+       Parsed::minute; Parsed::second; Parsed::nanosecond; Parsed::timestamp; Parsed::offset;
      C15_parsed_setters_total
        Parsed::set_year; Parsed::set_year_div_100; Parsed::set_year_mod_100; Parsed::set_isoyear;
        Parsed::set_isoyear_div_100; Parsed::set_isoyear_mod_100; Parsed::set_quarter; Parsed::set_month;
        Parsed::set_week_from_sun; Parsed::set_week_from_mon; Parsed::set_isoweek; Parsed::set_weekday;
        Parsed::set_ordinal; Parsed::set_day; Parsed::set_ampm; Parsed::set_hour12; Parsed::set_hour;
        Parsed::set_minute; Parsed::set_second; Parsed::set_nanosecond; Parsed::set_timestamp; Parsed::set_offset;
+     C15_serde_de_date_total
+       <NaiveDate as de::Deserialize<'de>>::deserialize;
+     C15_serde_de_dt_fixed_total
+       <DateTime<FixedOffset> as de::Deserialize<'de>>::deserialize;
+     C15_serde_de_dt_utc_total
+       <DateTime<Utc> as de::Deserialize<'de>>::deserialize;
+     C15_serde_de_names_total
+       <Month as de::Deserialize<'de>>::deserialize; <Weekday as de::Deserialize<'de>>::deserialize;
+     C15_serde_de_ndt_total
+       <NaiveDateTime as de::Deserialize<'de>>::deserialize;
+     C15_serde_de_time_total
+       <NaiveTime as de::Deserialize<'de>>::deserialize;
+     C15_serde_ser_ndt_total
+       <NaiveDateTime as ser::Serialize>::serialize;
+     C15_serde_ser_time_total
+       <NaiveTime as ser::Serialize>::serialize;
+     C15_serde_ts_serialize_option_total
+       serde::ts_nanoseconds_option::serialize#1; serde::ts_microseconds_option::serialize#1;
+       serde::ts_milliseconds_option::serialize#1; serde::ts_seconds_option::serialize#1;
+       serde::ts_nanoseconds_option::serialize#2; serde::ts_microseconds_option::serialize#2;
+       serde::ts_milliseconds_option::serialize#2; serde::ts_seconds_option::serialize#2;
+     C15_serde_ts_serialize_total
+       serde::ts_nanoseconds::serialize#1; serde::ts_microseconds::serialize#1;
+       serde::ts_milliseconds::serialize#1; serde::ts_seconds::serialize#1; serde::ts_nanoseconds::serialize#2;
+       serde::ts_microseconds::serialize#2; serde::ts_milliseconds::serialize#2; serde::ts_seconds::serialize#2;
      C15_show_date_total
        <NaiveDate as fmt::Debug>::fmt; <NaiveDate as fmt::Display>::fmt;
      C15_show_dtz_total
@@ -683,8 +1026,16 @@ Print Assumptions C15_wide_hypotheses_inhabited.
      C15_time_ctor_total
        NaiveTime::from_hms_opt; NaiveTime::from_hms_milli_opt; NaiveTime::from_hms_micro_opt;
        NaiveTime::from_hms_nano_opt;
+     C15_time_parse_and_remainder_total
+       NaiveTime::parse_and_remainder;
+     C15_time_parse_from_str_total
+       NaiveTime::parse_from_str;
      C15_timestamp_nanos_opt_total
        DateTime<Tz>::timestamp_nanos_opt;
+     C15_to_datetime_total
+       Parsed::to_datetime;
+     C15_to_datetime_with_timezone_total
+       Parsed::to_datetime_with_timezone;
      C15_to_naive_date_total
        Parsed::to_naive_date;
      C15_to_naive_datetime_with_offset_total
@@ -697,6 +1048,8 @@ Print Assumptions C15_wide_hypotheses_inhabited.
        DateTime<Tz>::to_rfc3339;
      C15_tz_timestamp_total
        TimeZone::timestamp_opt; TimeZone::timestamp_millis_opt; TimeZone::timestamp_micros;
+     C15_wdset_debug_total
+       <WeekdaySet as Debug>::fmt;
      C15_week_total
        NaiveWeek::checked_first_day; NaiveWeek::checked_last_day; NaiveWeek::checked_days;
      C15_weekday_month_conversions
@@ -714,8 +1067,6 @@ Print Assumptions C15_wide_hypotheses_inhabited.
        NaiveDate::years_since;
 
    PARTIAL theorem of this file (sub-domain stated at the theorem):
-     C15_parse_items_total_partial
-       parse::parse; parse::parse_and_remainder;
 
    OWNER's theorem states [= Val ...] for all typed arguments (not restated here):
      owner: C06_from_std
@@ -766,72 +1117,24 @@ Print Assumptions C15_wide_hypotheses_inhabited.
        serde::ts_milliseconds::deserialize#2; serde::ts_seconds::deserialize#2;
 
    OWNER's theorem on a stated sub-domain (partial; elsewhere correspondence + judge):
-     owner-partial: C09_roundtrip_date
-       <NaiveDate as str::FromStr>::from_str;
-     owner-partial: C09_roundtrip_dt_fixed
-       <DateTime<FixedOffset> as str::FromStr>::from_str;
-     owner-partial: C09_roundtrip_dt_utc
-       <DateTime<Utc> as str::FromStr>::from_str;
-     owner-partial: C09_roundtrip_fixed_offset
-       <FixedOffset as FromStr>::from_str;
-     owner-partial: C09_roundtrip_ndt_debug
-       <NaiveDateTime as str::FromStr>::from_str;
-     owner-partial: C09_roundtrip_time
-       <NaiveTime as str::FromStr>::from_str;
-     owner-partial: C13_date_ymd_parse_from_str
-       NaiveDate::parse_from_str;
-     owner-partial: C13_time_hms_parse_from_str
-       NaiveTime::parse_from_str;
-     owner-partial: C20_serde_roundtrip_date
-       <NaiveDate as de::Deserialize<'de>>::deserialize;
-     owner-partial: C20_serde_roundtrip_dt_fixed
-       <DateTime<FixedOffset> as de::Deserialize<'de>>::deserialize;
-     owner-partial: C20_serde_roundtrip_dt_utc
-       <DateTime<Utc> as de::Deserialize<'de>>::deserialize;
-     owner-partial: C20_serde_roundtrip_month
-       <Month as de::Deserialize<'de>>::deserialize;
-     owner-partial: C20_serde_roundtrip_ndt
-       <NaiveDateTime as ser::Serialize>::serialize; <NaiveDateTime as de::Deserialize<'de>>::deserialize;
-     owner-partial: C20_serde_roundtrip_time
-       <NaiveTime as ser::Serialize>::serialize; <NaiveTime as de::Deserialize<'de>>::deserialize;
-     owner-partial: C20_serde_roundtrip_weekday
-       <Weekday as de::Deserialize<'de>>::deserialize;
-     owner-partial: C20_ts_serialize_option_spec
-       serde::ts_nanoseconds_option::serialize#1; serde::ts_microseconds_option::serialize#1;
-       serde::ts_milliseconds_option::serialize#1; serde::ts_seconds_option::serialize#1;
-       serde::ts_nanoseconds_option::serialize#2; serde::ts_microseconds_option::serialize#2;
-       serde::ts_milliseconds_option::serialize#2; serde::ts_seconds_option::serialize#2;
-     owner-partial: C20_ts_serialize_spec
-       serde::ts_nanoseconds::serialize#1; serde::ts_microseconds::serialize#1;
-       serde::ts_milliseconds::serialize#1; serde::ts_seconds::serialize#1; serde::ts_nanoseconds::serialize#2;
-       serde::ts_microseconds::serialize#2; serde::ts_milliseconds::serialize#2; serde::ts_seconds::serialize#2;
 
    correspondence + judge ONLY:
-     none: C11_comment_total, C11_zone_scanner_total, C11_no_panic_on_grammar_partial are partial
-       DateTime<FixedOffset>::parse_from_rfc2822;
-     none: C12_format_spec covers the documented family; C15_strftime_never_panics covers the item iterator; formatting of arbitrary items: correspondence + judge
-       DelayedFormat<I>::write_to; <DelayedFormat<I> as Display>::fmt;
-     none: constant (returns Single(self)); no trapping step in the model
-       <FixedOffset as TimeZone>::offset_from_local_date; <FixedOffset as TimeZone>::offset_from_local_datetime;
-       <Utc as TimeZone>::offset_from_local_date; <Utc as TimeZone>::offset_from_local_datetime;
-     none: field getters
-       Parsed::year; Parsed::year_div_100; Parsed::year_mod_100; Parsed::isoyear; Parsed::isoyear_div_100;
-       Parsed::isoyear_mod_100; Parsed::quarter; Parsed::month; Parsed::week_from_sun; Parsed::week_from_mon;
-       Parsed::isoweek; Parsed::weekday; Parsed::ordinal; Parsed::day; Parsed::hour_div_12; Parsed::hour_mod_12;
-       Parsed::minute; Parsed::second; Parsed::nanosecond; Parsed::timestamp; Parsed::offset;
-     none: outside C15 stream
-       <ParseError as fmt::Display>::fmt; <OutOfRange as fmt::Display>::fmt; <OutOfRange as fmt::Debug>::fmt;
-       <ParseMonthError as fmt::Display>::fmt; <ParseMonthError as fmt::Debug>::fmt;
-       <IsoWeek as fmt::Debug>::fmt; <RoundingError as fmt::Display>::fmt;
-       <OutOfRangeError as fmt::Display>::fmt; <ParseWeekdayError as fmt::Display>::fmt;
-       <ParseWeekdayError as fmt::Debug>::fmt; <WeekdaySet as Debug>::fmt;
-     none: partial -- C15_strftime_never_panics (item iterator) and C15_parse_items_total_partial (item reader); their lazy composition and the resolution step: correspondence + judge
-       DateTime<FixedOffset>::parse_from_str; DateTime<FixedOffset>::parse_and_remainder;
-       NaiveDate::parse_and_remainder; NaiveDateTime::parse_from_str; NaiveDateTime::parse_and_remainder;
-       NaiveTime::parse_and_remainder;
-     none: partial -- goes through C15_to_naive_datetime_with_offset_total; the final zone step: correspondence + judge
-       Parsed::to_datetime; Parsed::to_datetime_with_timezone;
-     none: pattern match only; no trapping step in the model
-       MappedLocalTime<T>::single; MappedLocalTime<T>::earliest; MappedLocalTime<T>::latest;
+
+   What the theorems above do NOT state, and why (covered by the correspondence run + judge only):
+     - premises kept: [str_ok] / the length bounds (a Rust string has at most isize::MAX bytes, so the premise
+       excludes nothing real); Gen.Strftime.SF_ERROR_CONSUMES = true (the repaired error() of strftime.rs: on an
+       unrepaired tree the strict iterator yields Error items for ever and the theorems do not apply -- the
+       check then reports the hang through c15.itemcount / sf.items); [Proofs.C14.typed] (the Rust types of the
+       Parsed fields); [Proofs.C12.args_view] (discharged for every value by the *_has_view lemmas of
+       Proofs/C15Format.v, stated inside C15_delayed_format_items_total / _strftime_total);
+     - the 45 entries under OWNER: the owner's theorem already has the form [f args = Val ...] for all typed
+       arguments; they are not restated here (a restatement would add no proof);
+     - not modelled at all, hence outside every theorem: the Local zone and its tz_info reader (C05 / C16 / C18,
+       environment dependent; excluded from the inventory by the property text), the locale-aware formatting
+       of the unstable-locales feature, serde's own dispatch and the data formats (C20 trusted base), rkyv /
+       arbitrary glue, and everything core::fmt does below a write! with arguments (padding of integers:
+       modelled by Model.Format.fmt_int, compared with the code by the correspondence run);
+     - the link between model and code itself: every theorem is about the Gallina model; that the model IS the
+       code is the correspondence run (same cases through implrun and modelrun) -- see trusted_base.json.
 
 *)
